@@ -10,7 +10,7 @@ RULE = ('Oracle on the implementation: for each abstract document of the C04 spe
         'parse_to_xml(unparse(x)) must equal x (elements, attributes, eIds, text; meta ignored, attribute order ignored); the second round trip must '
         'change neither the text nor the tree; and every hierarchical element, speech container/group, attachment, table, list, block container, quote, '
         'crossheading and paragraph without footnote of x, unparsed alone and parsed with its own grammar rule as root, must give the same element '
-        '(eIds of fragments are C18\'s business and are ignored). The known-finding witnesses are replayed on every run. The string templates of the '
+        '(eIds of fragments are C18\'s business and are ignored). The known-finding witnesses are replayed on every run, and so is every keyword of the vocabulary as the first word of a text line in every kind of text position (paragraph, list intro/wrap-up, quote, attachment, table cell, preface, bullet, footnote). The string templates of the '
         'stylesheet are run against Model/Unparse.v (xslstr stage). non-trivial = document with >= 4 element kinds; distinct by (seed, root).')
 TRUSTED_BASE = [
     'Coq 8.16.1 kernel; vm_compute for the table theorems; no axioms',
@@ -104,6 +104,19 @@ WITNESSES = {
     'explicit_by': [('debate', 'DEBATESECTION\n  SPEECH{by #smith}\n    FROM Mr Smith\n    text\n'), ('debate', 'DEBATESECTION\n  SPEECH\n    FROM {{abbr x}} y\n    text\n')],
 }
 
+def keyword_text_docs():
+    """every keyword of the vocabulary as the first word of a text line, in every kind of position a text line can take: the parser
+    output holds it as text, so the unparser has to write it in a form that is read back as text"""
+    ctxs = ['SEC 1 - h\n  \\%s\n  second\n', 'SEC 1\n  ITEMS\n    \\%s\n    ITEM (a)\n      x\n    \\%s\n',
+            'SEC 1\n  QUOTE\n    \\%s\n', 'x\nSCHEDULE h\n  \\%s\n', 'SEC 1\n  TABLE\n    TR\n      TC\n        \\%s\n',
+            'PREFACE\n  \\%s\nBODY\n  x\n', 'SEC 1\n  BULLETS\n    * \\%s\n', 'SEC 1\n  x {{FOOTNOTE 1}}\n  FOOTNOTE 1\n    \\%s\n']
+    out = []
+    for kw in gen.ALL_KEYWORDS:
+        for c in ctxs:
+            for line in (kw + ' B of this Part applies', kw, kw + '.', kw + ' 1. - h'):
+                out.append(('act', c.replace('%s', line)))
+    return out
+
 def make(seed, root, depth):
     rng = random.Random(seed)
     return absdoc.Gen(rng, footnotes=True, attrs=True, max_depth=depth).document(root)
@@ -160,6 +173,11 @@ def search(ctx, budget):
         ctx.evaluations += 1; ctx.count('witness_' + r[0])
         if r[0] == 'bad':
             ctx.failures.append(({'stage': 'witness', 'family': fam, 'root': root, 'text': text}, r[1]))
+    kd = keyword_text_docs()
+    for (root, text), r in zip(kd, impl.pmap(_wjob, kd, chunk=16)):
+        ctx.evaluations += 1; ctx.count('keyword_text_' + r[0])
+        if r[0] == 'bad':
+            ctx.failures.append(({'stage': 'keyword-text', 'root': root, 'text': text, 'unparsed': r[3]}, r[1]))
     d = make(*js[0])
     ctx.sample({'seed': js[0][0], 'root': js[0][1], 'text': (d[0] if d else '')[:600]})
 
@@ -178,7 +196,7 @@ def replay(obj):
         print('nothing to replay:', obj.get('broken_obligations')); return 1
     if case.get('stage') == 'roundtrip':
         r = _job((case['seed'], case['root'], case['depth'])); print(r[:2]); return 1 if r[0] == 'bad' else 0
-    if case.get('stage') == 'witness':
+    if case.get('stage') in ('witness', 'keyword-text'):
         r = _wjob((case['root'], case['text'])); print(r[:2]); return 1 if r[0] == 'bad' else 0
     from props import C06
     return 0 if C06.replay_xslstr(case) else 1
